@@ -78,7 +78,7 @@ def build_driver(chk):
 def run_model(chk, kind, cases, shards=None):
     """Run the extracted model on harness cases (dicts with "kind").  Returns a list of result
     dicts aligned with `cases`, or None when the model cannot be run (a broken tie is recorded)."""
-    if kind not in ("dec_stream", "dec_subset", "struct", "spec_stream", "enc_stream"):
+    if kind not in ("dec_stream", "dec_subset", "struct", "spec_stream", "enc_stream", "enc_subset"):
         return None
     exe = build_driver(chk)
     if exe is None:
@@ -267,15 +267,18 @@ def encoder_model_tie(chk, cases):
     Enc.enc_sub produces for the announced channel signals).  A mismatch is a broken tie (the
     theorems C01_encoder_* are about a model the code no longer follows), reported with the input."""
     sel = [c for c in cases if c.get("kind") == "enc_stream" and isinstance(c.get("cfg"), dict)]
+    sub = [c for c in cases if c.get("kind") == "enc_subset" and isinstance(c.get("cfg"), dict)]
     out = {"encoder_model_files": 0, "encoder_model_frames": 0, "encoder_model_frames_byte_exact": 0,
            "encoder_model_frames_subframe_exact": 0, "encoder_model_files_lpc_off": 0, "encoder_model_mismatching_files": 0}
-    if not sel:
+    if not sel and not sub:
         return out
-    res = run_model(chk, "enc_stream", sel)
-    if res is None:
+    res = (run_model(chk, "enc_stream", sel) if sel else []) 
+    res2 = (run_model(chk, "enc_subset", sub) if sub else [])
+    if res is None or res2 is None:
         return out
+    out["encoder_model_raw_streams"] = len(sub)
     bad = 0
-    for c, r in zip(sel, res):
+    for c, r in list(zip(sel, res)) + list(zip(sub, res2)):
         out["encoder_model_files"] += 1
         if r is None or r.get("end") != "ok":
             why = "model: %s" % (r or {}).get("end")
@@ -295,6 +298,6 @@ def encoder_model_tie(chk, cases):
                 chk.violation("tie:encoder-model-correspondence",
                               "the encoder no longer produces what the Coq model of the encoder (Enc.enc_frame, theorems C01_encoder_*) produces: %s" % why,
                               {"stage": "encoder-model-correspondence", "theorem": "C01_encoder_frame_lossless / C02_encoder_frame_valid (coq/codec/Props_codec.v)",
-                               "file_hex": c["bytes"], "pcm": c["expect"], "cfg": c["cfg"], "model": r}, no_input=True)
+                               "file_hex": c["bytes"], "pcm": c.get("expect", c.get("frames")), "cfg": c["cfg"], "model": r}, no_input=True)
     out["encoder_model_mismatching_files"] = bad
     return out
